@@ -315,7 +315,45 @@ func (w *pworld) exec(f []string) string {
 	am := w.svr.GetTSOAllocatorManager()
 	switch {
 	case f[0] == "pinit":
-		// (the parameters were produced from the views by the generator; nothing to do)
+		// a logical counter that is too large to serve further requests within this millisecond is
+		// normally cleared by the advancing clock; the clock is frozen here, so move it on by hand and
+		// wait until the updater daemon has taken every allocator there
+		busy := false
+		for _, dc := range append([]string{tso.GlobalDCLocation}, w.dcs...) {
+			a, _ := am.GetAllocator(dc)
+			_, l, _ := tso.VerifView(a)
+			if l > 20000 {
+				busy = true
+			}
+		}
+		if busy {
+			maxP := int64(0)
+			for _, dc := range append([]string{tso.GlobalDCLocation}, w.dcs...) {
+				a, _ := am.GetAllocator(dc)
+				if p, _, _ := tso.VerifView(a); p > maxP {
+					maxP = p
+				}
+			}
+			now := atomic.LoadInt64(&w.now)
+			if maxP > now {
+				now = maxP
+			}
+			atomic.StoreInt64(&w.now, now+5e6)
+			deadline := time.Now().Add(5 * time.Second)
+			for time.Now().Before(deadline) {
+				time.Sleep(70 * time.Millisecond)
+				all := true
+				for _, dc := range append([]string{tso.GlobalDCLocation}, w.dcs...) {
+					a, _ := am.GetAllocator(dc)
+					if p, _, _ := tso.VerifView(a); p != now+5e6 {
+						all = false
+					}
+				}
+				if all {
+					break
+				}
+			}
+		}
 		return "ok"
 	case f[0] == "req" && len(f) == 3: // allocator (0 global / dc number), count
 		g := w.request(int(atoi(f[1])), uint32(atoi(f[2])))
@@ -323,6 +361,13 @@ func (w *pworld) exec(f []string) string {
 			return "err " + g.err
 		}
 		return fmt.Sprintf("ts %d %d %d", g.ms, g.logical, g.bits)
+	case f[0] == "bigreq" && len(f) == 3: // allocator, count: three large requests in a row
+		var parts []string
+		for k := 0; k < 3; k++ {
+			g := w.request(int(atoi(f[1])), uint32(atoi(f[2])))
+			parts = append(parts, g.String())
+		}
+		return "grants " + strings.Join(parts, " ")
 	case f[0] == "setts" && len(f) == 4: // allocator, ms, logical
 		a, err := am.GetAllocator(dcName(f[1]))
 		if err != nil {
@@ -396,6 +441,7 @@ func main() {
 		if pw == nil {
 			pw = startServer()
 			tso.VerifClock = func() time.Time { return time.Unix(0, atomic.LoadInt64(&pw.now)) }
+			tso.VerifSleep = func(time.Duration) { time.Sleep(time.Millisecond) }
 			pw.freeze()
 		}
 		return pw
@@ -416,10 +462,10 @@ func main() {
 			o = fmt.Sprintf("%d", tso.VerifDifferentiate(a, b, c))
 		case "sreset", "dcjoin", "dcleave", "slead", "checker", "gchecker", "sfinish":
 			o = sw.exec(f) + " " + sw.table()
-		case "pinit", "req", "setts", "burst":
+		case "pinit", "req", "setts", "burst", "bigreq":
 			p := getPW()
 			o = p.exec(f)
-			if f[0] != "burst" {
+			if f[0] != "burst" && f[0] != "bigreq" {
 				o += " | " + p.view()
 			} else {
 				o += " | " + suffixTable(p.svr)
